@@ -100,6 +100,14 @@ def _one(item):
         xs = xs.copy()
         xs[0] = 0.0
         kind += "+zero-start"
+    as_f32 = False
+    if rng.random() < 0.12:
+        # the grid handed over as a float32 array (values exactly representable in float32): XGrid documents a
+        # float64 grid, so nodes, logarithms and denominators must still be computed in double precision
+        x32 = xs.astype(np.float32).astype(np.float64)
+        if np.all(np.diff(x32) > 0) and x32[-1] <= 1.0:
+            xs, as_f32 = x32, True
+            kind += "+float32-input"
     mode = "log" if is_log else "lin"
     rec = dict(
         idx=idx, mode=mode, n=n, d=d, kind=kind, xmin=xmin, xmax=xmax,
@@ -117,7 +125,9 @@ def _one(item):
     # ---- construct the real thing
     mode_N = bool(rng.random() < 0.3)
     try:
-        xg = interpolation.XGrid(xs.copy(), log=is_log)
+        xg = interpolation.XGrid(xs.astype(np.float32) if as_f32 else xs.copy(), log=is_log)
+        if as_f32:
+            hit("float32_input_grid")
         disp = interpolation.InterpolatorDispatcher(xg, d, mode_N=mode_N)
     except Exception as e:
         fail(f"C34/construct/{mode}/raises", f"valid grid rejected: {type(e).__name__}: {e}")
